@@ -54,6 +54,12 @@ class _Sock:
         return len(chunk)
 
 
+def _rebind_all(CL):
+    """the stand-ins just stored in CL.socket / CL.select / CL.time, under any import style of client.py"""
+    from .rebind import rebind
+    rebind(CL, {"socket": CL.socket, "select": CL.select, "time": CL.time})
+
+
 def _shims(world):
     class SockMod:
         pass
@@ -133,6 +139,7 @@ def check_entry_points() -> Dict[str, Any]:
                 continue        # client_context has no daemon option
             world = {"sent": b"", "inbuf": _ack_bytes(timecode, mid or 117) * 4}
             CL.socket, CL.select, CL.time = _shims(world)
+            _rebind_all(CL)
             n += 1
             try:
                 if entry == "client_context":
@@ -178,6 +185,7 @@ def check_entry_points() -> Dict[str, Any]:
                 ("disconnect", "eof_on_read", "reset_on_send", "still_connected"), (0, 12), (False, True), (False, True), (False, True)):
             world = {"sent": b"", "inbuf": _ack_bytes(timecode, mid or 117) * 2}
             CL.socket, CL.select, CL.time = _shims(world)
+            _rebind_all(CL)
             n += 1
             opts = dict(reconnect_after=how, logger=logger, allow_multiple=allow, name="rc", id=mid, timecode=timecode)
             try:
@@ -228,6 +236,7 @@ def check_entry_points() -> Dict[str, Any]:
                 failures.append({"entry": "reconnect", "options": opts, "frames": frames[:3], "what": b})
     finally:
         CL.socket, CL.select, CL.time = saved
+        _rebind_all(CL)
     return {"cases": n, "failures": failures}
 
 
@@ -250,6 +259,7 @@ def check_reconnect_state() -> Dict[str, Any]:
             n += 1
             world = {"sent": b"", "inbuf": _ack_bytes(timecode, 12) * 3}     # handshake (2) + subscribe (1)
             CL.socket, CL.select, CL.time = _shims(world)
+            _rebind_all(CL)
             tag = dict(first_session_ended_by=how, subscribed_to_all=sub_all, timecode=timecode)
             try:
                 c = CL.Client(module_id=12, timecode=timecode, name="rc")
@@ -307,6 +317,7 @@ def check_reconnect_state() -> Dict[str, Any]:
                 failures.append(dict(tag, property="C08", what=f"raised {type(e).__name__}: {e}"))
     finally:
         CL.socket, CL.select, CL.time = saved
+        _rebind_all(CL)
     return {"cases": n, "failures": failures}
 
 
@@ -367,6 +378,7 @@ def entry_model_cases() -> List[Dict[str, Any]]:
             for label, kind, calls in entry_shapes(logger, daemon, allow, name, mid, tc):
                 world = {"sent": b"", "inbuf": _ack_bytes(tc, mid or 117) * 4}
                 CL.socket, CL.select, CL.time = _shims(world)
+                _rebind_all(CL)
                 cid = f"e{n}"
                 n += 1
                 lines = [f"ECASE {cid} {kind}"] + [_call_line(w, p, k) for w, (p, k) in calls.items()]
@@ -409,4 +421,5 @@ def entry_model_cases() -> List[Dict[str, Any]]:
                             "calls": {w: [list(p), dict(k)] for w, (p, k) in calls.items()}, "protocol": lines})
     finally:
         CL.socket, CL.select, CL.time = saved
+        _rebind_all(CL)
     return out
